@@ -1,0 +1,148 @@
+//go:build verif
+
+package transaction
+
+// Contracts for govc (/verif). Comment-only file: no executable code, not part of the default build.
+
+/*@
+// ---- C24: a transaction signature covers every semantic field -------------------------------------------------------------
+//
+// jsonFtx(..): the text encoding/json writes (HTML escaping off, trailing line feed removed) for a FrontendTransaction with
+// the given field values; []byte fields are given by their content. It is uninterpreted: only "function of the field
+// values" is used for the direction "identical fields => identical bytes".
+spec fn jsonFtx(nonce uint64, value string, receiver string, sender string, sndUser string, rcvUser string, gasPrice uint64, gasLimit uint64, data string, sig string, chainID string, version uint32, options uint32) string
+
+// Injectivity is stated through decoders (left inverses): the j* functions read one field back from the JSON text, decimalValue
+// reads a decimal text back, addrTextInv reads an address text back. They are uninterpreted; the external/interface contracts
+// below say that decoding what was encoded gives the field back - i.e. that the encoders are injective.
+spec fn jNonce(t string) uint64
+spec fn jValue(t string) string
+spec fn jReceiver(t string) string
+spec fn jSender(t string) string
+spec fn jSndUser(t string) string
+spec fn jRcvUser(t string) string
+spec fn jGasPrice(t string) uint64
+spec fn jGasLimit(t string) uint64
+spec fn jData(t string) string
+spec fn jSig(t string) string
+spec fn jChainID(t string) string
+spec fn jVersion(t string) uint32
+spec fn jOptions(t string) uint32
+
+// encoding/json replaces invalid UTF-8 inside Go strings by U+FFFD: string fields are read back only when valid UTF-8
+spec fn validUTF8(s string) bool
+
+// decimal text of an integer (big.Int.String) and its inverse
+spec fn decText(v int) string
+spec fn decimalValue(t string) int
+spec fn valueText(v *big.Int) string = v == nil ? "<nil>" : decText(big(v))
+
+extern func (x *big.Int) String() (r string)
+  assigns  nothing
+  ensures  function-of-value: r == valueText(x)
+  ensures  decimal-is-injective: x != nil ==> decimalValue(r) == big(x) && r != "<nil>"
+  ensures  ascii: validUTF8(r)
+
+// the address encoder (core.PubkeyConverter: bech32 or hex; their Encode contracts are C48's): a function of the byte
+// content, ASCII, injective on byte strings of the configured address length (bech32 maps every other length to "")
+spec fn addrText(e Encoder, s string) string
+spec fn addrTextInv(e Encoder, t string) string
+spec fn addrLen(e Encoder) int
+
+func (e Encoder) Encode(buff []byte) (r string)
+  assigns  nothing
+  ensures  function-of-content: r == addrText(e, str(buff))
+  ensures  injective-on-addresses: len(buff) == addrLen(e) ==> addrTextInv(e, r) == str(buff)
+  ensures  ascii: validUTF8(r)
+
+// the DTO inside the interface{} handed to the marshalizer, and its JSON text
+spec fn isFtx(obj interface{}) bool = typeIs(obj, ptr_FrontendTransaction)
+spec fn ftxOf(obj interface{}) *FrontendTransaction = payload(obj, ptr_FrontendTransaction)
+spec fn ftxText(f *FrontendTransaction) string = jsonFtx(f.Nonce, f.Value, f.Receiver, f.Sender, str(f.SenderUsername), str(f.ReceiverUsername), f.GasPrice, f.GasLimit, str(f.Data), f.Signature, f.ChainID, f.Version, f.Options)
+
+// the signing marshalizer (marshal.TxJsonMarshalizer, same clauses proved there over the encoding/json contract)
+func (m Marshalizer) Marshal(obj interface{}) (r []byte, err error)
+  assigns  nothing
+  ensures  json-of-dto: err == nil && typeIs(obj, ptr_FrontendTransaction) ==> str(r) == ftxText(ftxOf(obj))
+  ensures  numbers-read-back: err == nil && typeIs(obj, ptr_FrontendTransaction) ==> jNonce(str(r)) == ftxOf(obj).Nonce && jGasPrice(str(r)) == ftxOf(obj).GasPrice && jGasLimit(str(r)) == ftxOf(obj).GasLimit && jVersion(str(r)) == ftxOf(obj).Version && jOptions(str(r)) == ftxOf(obj).Options
+  ensures  byte-fields-read-back: err == nil && typeIs(obj, ptr_FrontendTransaction) ==> jSndUser(str(r)) == str(ftxOf(obj).SenderUsername) && jRcvUser(str(r)) == str(ftxOf(obj).ReceiverUsername) && jData(str(r)) == str(ftxOf(obj).Data)
+  ensures  value-read-back: err == nil && typeIs(obj, ptr_FrontendTransaction) && validUTF8(ftxOf(obj).Value) ==> jValue(str(r)) == ftxOf(obj).Value
+  ensures  receiver-read-back: err == nil && typeIs(obj, ptr_FrontendTransaction) && validUTF8(ftxOf(obj).Receiver) ==> jReceiver(str(r)) == ftxOf(obj).Receiver
+  ensures  sender-read-back: err == nil && typeIs(obj, ptr_FrontendTransaction) && validUTF8(ftxOf(obj).Sender) ==> jSender(str(r)) == ftxOf(obj).Sender
+  ensures  signature-read-back: err == nil && typeIs(obj, ptr_FrontendTransaction) && (validUTF8(ftxOf(obj).Signature) || ftxOf(obj).Signature == "") ==> jSig(str(r)) == ftxOf(obj).Signature
+  ensures  chain-id-read-back: err == nil && typeIs(obj, ptr_FrontendTransaction) && validUTF8(ftxOf(obj).ChainID) ==> jChainID(str(r)) == ftxOf(obj).ChainID
+
+// the text a sender signs, as a function of the transaction fields and the address encoder
+spec fn signText(tx *Transaction, e Encoder) string = jsonFtx(tx.Nonce, valueText(tx.Value), addrText(e, str(tx.RcvAddr)), addrText(e, str(tx.SndAddr)), str(tx.SndUserName), str(tx.RcvUserName), tx.GasPrice, tx.GasLimit, str(tx.Data), "", str(tx.ChainID), tx.Version, tx.Options)
+
+func (tx *Transaction) GetDataForSigning(encoder Encoder, marshalizer Marshalizer) (r []byte, err error)
+  // CheckIntegrity refuses a nil Value before any signature check; big.Int.String itself tolerates a nil receiver ("<nil>"),
+  // the engine does not (nil:recv obligation), hence the precondition
+  requires value-set: tx.Value != nil
+  ensures  nil-collaborators-refused: isNil(encoder) || isNil(marshalizer) ==> err != nil && isNil(r)
+  ensures  function-of-the-fields: err == nil ==> str(r) == signText(tx, encoder)
+  ensures  covers-nonce: err == nil ==> jNonce(str(r)) == tx.Nonce
+  ensures  covers-value: err == nil ==> decimalValue(jValue(str(r))) == big(tx.Value)
+  ensures  covers-receiver: err == nil && len(tx.RcvAddr) == addrLen(encoder) ==> addrTextInv(encoder, jReceiver(str(r))) == str(tx.RcvAddr)
+  ensures  covers-sender: err == nil && len(tx.SndAddr) == addrLen(encoder) ==> addrTextInv(encoder, jSender(str(r))) == str(tx.SndAddr)
+  ensures  covers-sender-user-name: err == nil ==> jSndUser(str(r)) == str(tx.SndUserName)
+  ensures  covers-receiver-user-name: err == nil ==> jRcvUser(str(r)) == str(tx.RcvUserName)
+  ensures  covers-gas-price: err == nil ==> jGasPrice(str(r)) == tx.GasPrice
+  ensures  covers-gas-limit: err == nil ==> jGasLimit(str(r)) == tx.GasLimit
+  ensures  covers-data: err == nil ==> jData(str(r)) == str(tx.Data)
+  ensures  covers-chain-id: err == nil && validUTF8(str(tx.ChainID)) ==> jChainID(str(r)) == str(tx.ChainID)
+  ensures  covers-version: err == nil ==> jVersion(str(r)) == tx.Version
+  ensures  covers-options: err == nil ==> jOptions(str(r)) == tx.Options
+  ensures  signature-field-left-out: err == nil ==> jSig(str(r)) == ""
+  assigns  nothing
+
+// generated getters used by the transaction processor (C23)
+func (m *Transaction) GetData() (r []byte)
+  ensures  m != nil ==> r == m.Data
+  ensures  m == nil ==> len(r) == 0
+  assigns  nothing
+
+func (m *Transaction) GetRcvAddr() (r []byte)
+  ensures  m != nil ==> r == m.RcvAddr
+  ensures  m == nil ==> len(r) == 0
+  assigns  nothing
+
+// run by InterceptedTransaction.integrity before any signature check: establishes `value-set`
+func (tx *Transaction) CheckIntegrity() (err error)
+  ensures  accepted-iff: err == nil <==> !isNil(tx.Signature) && tx.Value != nil && big(tx.Value) >= 0 && len(tx.RcvUserName) <= 32 && len(tx.SndUserName) <= 32
+  assigns  nothing
+
+// 2-safety: two transactions whose signing bytes are equal agree on every semantic field
+spec fn sameSigningBytes(b1 []byte, e1 error, b2 []byte, e2 error) bool = e1 == nil && e2 == nil && str(b1) == str(b2)
+lemma equal-signing-bytes-equal-fields
+  vars tx1 *Transaction, tx2 *Transaction, enc Encoder, m Marshalizer
+  hyp  values-set: tx1.Value != nil && tx2.Value != nil
+  hyp  addresses-have-the-configured-length: len(tx1.RcvAddr) == addrLen(enc) && len(tx2.RcvAddr) == addrLen(enc) && len(tx1.SndAddr) == addrLen(enc) && len(tx2.SndAddr) == addrLen(enc)
+  hyp  chain-ids-are-valid-utf8: validUTF8(str(tx1.ChainID)) && validUTF8(str(tx2.ChainID))
+  call b1, e1 = tx1.GetDataForSigning(enc, m)
+  call b2, e2 = tx2.GetDataForSigning(enc, m)
+  concl nonce: sameSigningBytes(b1, e1, b2, e2) ==> tx1.Nonce == tx2.Nonce
+  concl value: sameSigningBytes(b1, e1, b2, e2) ==> big(tx1.Value) == big(tx2.Value)
+  concl receiver: sameSigningBytes(b1, e1, b2, e2) ==> str(tx1.RcvAddr) == str(tx2.RcvAddr)
+  concl sender: sameSigningBytes(b1, e1, b2, e2) ==> str(tx1.SndAddr) == str(tx2.SndAddr)
+  concl sender-user-name: sameSigningBytes(b1, e1, b2, e2) ==> str(tx1.SndUserName) == str(tx2.SndUserName)
+  concl receiver-user-name: sameSigningBytes(b1, e1, b2, e2) ==> str(tx1.RcvUserName) == str(tx2.RcvUserName)
+  concl gas-price: sameSigningBytes(b1, e1, b2, e2) ==> tx1.GasPrice == tx2.GasPrice
+  concl gas-limit: sameSigningBytes(b1, e1, b2, e2) ==> tx1.GasLimit == tx2.GasLimit
+  concl data: sameSigningBytes(b1, e1, b2, e2) ==> str(tx1.Data) == str(tx2.Data)
+  concl chain-id: sameSigningBytes(b1, e1, b2, e2) ==> str(tx1.ChainID) == str(tx2.ChainID)
+  concl version: sameSigningBytes(b1, e1, b2, e2) ==> tx1.Version == tx2.Version
+  concl options: sameSigningBytes(b1, e1, b2, e2) ==> tx1.Options == tx2.Options
+
+// the converse: identical field values give identical signing bytes
+lemma equal-fields-equal-signing-bytes
+  vars tx1 *Transaction, tx2 *Transaction, enc Encoder, m Marshalizer
+  hyp  values-set: tx1.Value != nil && tx2.Value != nil
+  hyp  tx1.Nonce == tx2.Nonce && tx1.GasPrice == tx2.GasPrice && tx1.GasLimit == tx2.GasLimit && tx1.Version == tx2.Version && tx1.Options == tx2.Options
+  hyp  big(tx1.Value) == big(tx2.Value)
+  hyp  str(tx1.RcvAddr) == str(tx2.RcvAddr) && str(tx1.SndAddr) == str(tx2.SndAddr) && str(tx1.SndUserName) == str(tx2.SndUserName) && str(tx1.RcvUserName) == str(tx2.RcvUserName)
+  hyp  str(tx1.Data) == str(tx2.Data) && str(tx1.ChainID) == str(tx2.ChainID)
+  call b1, e1 = tx1.GetDataForSigning(enc, m)
+  call b2, e2 = tx2.GetDataForSigning(enc, m)
+  concl same-bytes: e1 == nil && e2 == nil ==> str(b1) == str(b2)
+@*/
